@@ -10,7 +10,7 @@ THEOREMS = ['MindsVerif.Props.C01.' + n for n in (
     'C01_partial_select', 'C01_partial_select_good', 'C01_select_good', 'C01_partial_select_stable',
     'C01_partial_union', 'C01_partial_union_left', 'C01_witness_union',
     'C01_partial_expr_sqlite', 'C01_partial_expr_mysql', 'C01_partial_expr_mindsdb',
-    'C01_witness_parameter', 'C01_witness_variable')]
+    'C01_regress_parameter', 'C01_regress_variable')]
 ASSUME = [
     'C01_full is proved per layer only: L2 expressions (operator-precedence machine, tied to the LALR tables by C03.phi3b) and '
     'L3 SELECT skeleton / set-operation chains (hand model Model/SelectSkel.lean of the clause rules, ensure_select_keyword_order and '
@@ -204,7 +204,7 @@ ID_CONTEXTS = ['SELECT %s FROM t', 'SELECT a AS %s FROM t', 'SELECT * FROM %s', 
 ID_CONTEXTS_MINDSDB = ['CREATE MODEL %s PREDICT a', 'DROP MODEL %s', 'CREATE DATABASE %s', 'DROP DATABASE %s',
                        'CREATE VIEW %s AS (SELECT 1)', 'DESCRIBE %s', 'RETRAIN %s', 'CREATE TABLE %s (a int)',
                        'CREATE MODEL m FROM %s (select 1) PREDICT a', 'DROP VIEW %s']
-ODD_NAMES = ['`a b`', '`1a`', '`1`', '`x.y`', '`é`', 'é', '`ü ß`', '`a-b`', '`select`', '`Ab`', '_x', 'x1', '`from`', '`*`',
+ODD_NAMES = ['`select$x`', '`x$from`', '`$all`', '`a b`', '`1a`', '`1`', '`x.y`', '`é`', 'é', '`ü ß`', '`a-b`', '`select`', '`Ab`', '_x', 'x1', '`from`', '`*`',
              '`a"b`', "`a'b`", '` `', '`a\\b`', 'a$b', '`$`', 'ıf', '`tAbLe`']
 STRINGS = ["'s'", "''", "'a b'", "'a''b'", "'it\\'s'", "'a\\\\b'", "'\"q\"'", '"d"', '"a\'b"', '"a\\"b"', "'a\\nb'", "'é'",
            "'%'", "'a\nb'", "''''", "'\\''", '""', "'a\"'", "'?'", "';'", "'--'", "'/*'", "'`'", "'a''''b'"]
@@ -228,14 +228,18 @@ def atom_stream(chk, cl, dist, quick):
             cases.append((ctxs[i % len(ctxs)], '`%s`' % w))
             cases.append((ctxs[(i * 7 + 3) % len(ctxs)], '`%s`' % w.lower()))
             cases.append((ctxs[(i * 5 + 1) % len(ctxs)], w))
+            # a keyword next to `$` inside one part: `\bKW\b` matches there (`$` is not a word character) although
+            # the ID rule takes `$` — such a part must stay quoted
+            cases.append((ctxs[(i * 3 + 2) % len(ctxs)], '`%s$x`' % w))
+            cases.append((ctxs[(i * 11 + 5) % len(ctxs)], ('`x$%s`' if i % 2 else '`$%s`') % w.lower()))
         for nm in ODD_NAMES:
             for c in ctxs[:8] if quick else ctxs:
                 cases.append((c, nm))
         for _ in range(300 if quick else 6000):
             w = rng.choice(words)
-            form = rng.choice(['`%s`', '`%s`', '%s', '`%s`.c', 't.`%s`', '`%s x`', '`%s1`'])
+            form = rng.choice(['`%s`', '`%s`', '%s', '`%s`.c', 't.`%s`', '`%s x`', '`%s1`', '`%s$`', '`a$%s$b`', '`%s$1`.`$%s`'])
             w = rng.choice([w, w.lower(), w.capitalize()])
-            cases.append((rng.choice(ctxs), form % w))
+            cases.append((rng.choice(ctxs), form % ((w,) * form.count('%s'))))
         rngf = common.rng_for('C01-fixed-atoms', 'ident/' + d)     # arbitrary name bodies: fixed sub-seed (vetted)
         for _ in range(150 if quick else 3000):
             body = lexh.random_string(rngf, 1, 5, alphabet=['a', 'B', '1', '_', '.', '$', 'é', ' ', '-', '"', "'", 's', '*'])
